@@ -8,8 +8,6 @@ from functools import partial
 from typing import TYPE_CHECKING
 
 # Third Party Imports
-from numpy import array
-from numpy import max as np_max
 from numpy import ones_like, spacing, zeros
 from scipy.integrate import solve_ivp
 
@@ -337,9 +335,9 @@ class Celestial(Dynamics, metaclass=ABCMeta):
                 resonaateLogError(solution.message)
                 raise ValueError(solution.message)
 
-            # Pull out solved states at each `times`
+            # Pull out solved states at each `times`; an event may stop the integration before the next of them
             n_t = len(solution.t)
-            states = solution.y
+            states = solution.y if n_t else zeros((current_state.size, 0))
 
             # Integration completed, check if event occurred between last two `times`
             if solution.status == 0 and len(times) == 0:
@@ -350,26 +348,43 @@ class Celestial(Dynamics, metaclass=ABCMeta):
             states = states.reshape((*state_shape, n_t)).copy()
 
             # Retrieve time when integration stopped, should auto-exit the loop if fully-integrated
-            if array(solution.t_events).size == 0:
+            fired = [index for index, t_event in enumerate(solution.t_events) if t_event.size > 0]
+            if not fired:
                 current_time = solution.t[-1]
                 # print(states.shape, states[...,-1].shape, states[::,-1].shape)
                 current_state = states[..., -1]  # .reshape(state_shape)
             else:
                 # Retrieve the current state & update the initial state for next loop
-                current_time = np_max(solution.t_events)
+                segment_start = current_time
+                current_time = max(solution.t_events[index][-1] for index in fired)
                 current_state = self._applyEvents(
                     t_events=solution.t_events,
                     events=events,
-                    # [TODO]: Make this more robust. What about multiple events?
-                    current_state=solution.y_events[0].reshape(state_shape),
+                    current_state=solution.y_events[fired[0]][-1].reshape(state_shape),
                 )
+                cut_off = _cutOffEvents(
+                    events,
+                    solution.t_events,
+                    segment_start,
+                    current_time + spacing(current_time),
+                )
+                events = _dropFiredImpulses(events, solution.t_events)
+                for event in cut_off:
+                    if isinstance(event, ScheduledFiniteThrust):
+                        event.getStateChangeCallback(event.end_time)
+                        if self.finite_thrust is event.thrust_func:
+                            self.finite_thrust = None
+                    else:
+                        current_state += event.getStateChange(event.time, current_state[:, 0])[
+                            :,
+                            None,
+                        ]
+                        events = [other for other in events if other is not event]
 
                 # Properly copies updated state back into full state vector for when
                 # an event occurs on a `times`
-                if current_time == solution.t[-1]:
+                if n_t and current_time == solution.t[-1]:
                     states[..., -1] = current_state.copy()
-
-                events = _dropFiredImpulses(events, solution.t_events)
 
             # [TODO]: This may not be needed?
             # The reshape should give a _view_ into `states`, but this is just in case
@@ -380,6 +395,17 @@ class Celestial(Dynamics, metaclass=ABCMeta):
             # This also protects events that occur on a timestep. The event is applied
             # at the end of the previous timestep, rather than the beginning of current
             current_time += spacing(current_time)
+
+            # A waiting finite thrust whose start coincides with the event that just stopped the integration has its
+            # root behind the restart time and would never fire: arm it now (as `propagate` does).
+            if current_time < final_time:
+                for event in events:
+                    if (
+                        isinstance(event, ScheduledFiniteThrust)
+                        and not event._thrusting  # noqa: SLF001
+                        and event.start_time < current_time < event.end_time
+                    ):
+                        self.finite_thrust = event.getStateChangeCallback(current_time)
 
             # Save states to output variable, checks for case where event occurs before times[1]
             final_states[..., num_times : num_times + n_t] = states
